@@ -13,7 +13,7 @@ RULE = ("case: strategy in {dimension-wise (versions 6/2/3/7/8, rebalancing, bou
         "(final limits: max_evaluations=K2 and either no tolerance or an error value observed in the tol=-1 history) is recorded; then EVERY evaluation index k of that run (all of them in the thorough tier and whenever "
         "the history has <= 8 evaluations, otherwise a drawn subset of 8) is used as interruption point: a fresh run with "
         "max_evaluations = n_k - 1 (or with the weaker tolerance err_k) stops there and is continued to K2 in a drawn mode: continue directly / save_to_file -> "
-        "restore_from_file -> continue the restored object / save, then continue BOTH the original and the restored object. Oracle: final "
+        "restore_from_file -> continue the restored object / save, then continue BOTH the original and the restored object; optionally a continuation whose limits are already met is issued in between. Oracle: final "
         "refinement structure, scheme, lmax, combined result (1e-12 rel) and last point count equal the uninterrupted run's; a restored "
         "object answers __call__ and the point/weight getters bit-identically to the saved one. Non-trivial = an interruption at k>=1 "
         "followed by at least one further refinement. Distinct = distinct (case, interruption index).")
@@ -222,6 +222,15 @@ def run(case):
                     out.bad(sub + "/restored-instance-differs/points-and-weights", tag)
             targets = [("restored", restored)] + ([("original", sa2)] if mode == "both" else [])
         for name, obj in targets:
+            if case.get("noop", [False])[j % len(case.get("noop", [False]))]:
+                # an intermediate continuation whose limits are already met (a user asking again with the same / a slightly
+                # larger point limit): it must return without refining, and the final continuation must still end where the
+                # uninterrupted run ends
+                before_noop = snapshot(obj, kind)
+                rn = cont(obj, n_at_stop - 1, -1)
+                if snapshot(obj, kind) != before_noop or int(rn[6][-1]) != n_at_stop:
+                    out.bad(sub + "/continuation-with-met-limits-refined", "%s: %d -> %d points" % (tag, n_at_stop, int(rn[6][-1])))
+                out.cls("no-op-continuation-in-between")
             r2 = cont(obj, K2, tol_final)
             snap2 = snapshot(obj, kind)
             res2 = np.asarray(r2[3], dtype=float)
@@ -262,7 +271,8 @@ def _strategy(kind):
                      modes=draw(st.lists(st.sampled_from(["direct", "saved", "both"]), min_size=1, max_size=4)),
                      all_points=(tier == "thorough"),
                      tol_sel=[draw(st.sampled_from([0, 1, 1])), draw(st.integers(0, 40))],
-                     legs=draw(st.lists(st.sampled_from(["max", "max", "tol"]), min_size=1, max_size=3)))
+                     legs=draw(st.lists(st.sampled_from(["max", "max", "tol"]), min_size=1, max_size=3)),
+                     noop=draw(st.lists(st.booleans(), min_size=1, max_size=3)))
             if kind == "dw":
                 c.update(lmin=1, lmax=2, version=draw(st.sampled_from([6, 6, 2, 3, 7, 8])), rebalancing=draw(st.booleans()),
                          boundary=draw(st.booleans()), maxev=draw(st.integers(30, 250 if dim == 2 else 200)),
